@@ -31,7 +31,7 @@ ASSUMPTIONS = ["NumPy matmul/vdot/kron/transposes on dense arrays of <= 4096 row
                "against an independent NumPy contraction of the site tensors and against to_matrix()",
                "random_mps/random_mpo leaves have no independent truth: their observed dense image is taken as operand value",
                "compression_ is judged after max_sweeps<=6 sweeps from a start whose virtual spaces can hold the target "
-               "(1site) or with non-binding opts_svd (2site); tolerance 1e-8 relative (iterative method)"]
+               "(1site) or with non-binding opts_svd (2site); tolerance 1e-10 relative (iterative method; observed <= 5e-15)"]
 
 CT = 2.0e3            # arithmetic tolerance: CT * eps * scale   (scale = product / sum of operand norms)
 SCALARS = (2.0, -0.5, 1.5 - 0.5j, 3, 0.25j, -1, -2.5, 0.75 + 1.25j)
@@ -41,7 +41,7 @@ NONBINDING = ({}, {"D_total": 100000}, {"tol": 1e-15}, {"tol": 1e-15, "D_total":
 
 def plan(tier):
     if tier == "thorough":
-        return {"cases": 36000, "shards": 16, "budget_s": 1100}
+        return {"cases": 20000, "shards": 16, "budget_s": 800}
     return {"cases": 2200, "shards": 8, "budget_s": 100}
 
 
@@ -152,11 +152,11 @@ class Env:
         self.loc = loc = R.local(name, sym)
         self.tier = ctx.tier
         cap_mps = 4096
-        cap_mpo = 1024 if ctx.tier == "thorough" else 256
+        cap_mpo = 512 if ctx.tier == "thorough" else 256
         nmax = min(R.max_sites(loc, "mps", cap_mps), 7 if loc.d == 2 else 6)
         self.nmax_mpo = min(R.max_sites(loc, "mpo", cap_mpo), 6)
         # block count of a contracted MPO grows like (#sectors)^(2N): keep to_tensor() of operators affordable
-        cap_blocks = 20000 if ctx.tier == "thorough" else 5000
+        cap_blocks = 8000 if ctx.tier == "thorough" else 5000
         while self.nmax_mpo > 1 and len(loc.charges) ** (2 * self.nmax_mpo) > cap_blocks:
             self.nmax_mpo -= 1
         r = rng.random()
@@ -599,7 +599,7 @@ def number_check(E, key, got, exp, scale, what):
         ctx.violation("measure-type:" + key, f"{what}: returned {type(got).__name__}")
         return
     err = abs(g - complex(exp))
-    allowed = CT * R.EPS * max(scale, 1e-300)
+    allowed = 10 * CT * R.EPS * max(scale, 1e-300)     # contractions of three chains: conditioning beyond the dense norms
     ctx.count("numbers_compared")
     if not ctx.margin("number:" + key.split(":")[0], err, allowed):
         ctx.violation("value:" + key, f"{what}: {g} vs dense {complex(exp)} (|diff| {err:.3e}, allowed {allowed:.3e})", E.witness())
@@ -949,7 +949,7 @@ def fam_compression(E, idx):
     cond = scale / ne
     if N == 1 and method == "2site":
         ctx.count("compression:N=1-2site")
-        if err > 1e-8 * cond:
+        if err > 1e-10 * cond:
             ctx.violation("compression_:N=1:2site-does-not-update",
                           f"compression_(method='2site') on a one-site chain returns the (normalised) start state: relative "
                           f"distance to the target {err:.3e}, reported overlap {out.overlap}, max_discarded_weight "
@@ -957,13 +957,13 @@ def fam_compression(E, idx):
         else:
             ctx.count("compression:N=1-2site-sector-is-one-dimensional")
         return
-    if not ctx.margin("value:compression_" + method, err, 1e-8 * cond):
+    if not ctx.margin("value:compression_" + method, err, 1e-10 * cond):
         ctx.violation(f"value:compression_:{method}" + (":normalize" if normalize else ""),
                       f"compression_({form}, {method}, start={start}, opts={opts}, normalize={normalize}) after {out.sweeps} sweeps: "
                       f"relative distance to the exact target {err:.3e}", E.witness())
     # reported overlap = <psi|target> with psi normalised
     ov = np.vdot(normalized(obs), exact)
-    if not ctx.margin("number:compression-overlap", abs(complex(out.overlap) - ov), 1e-8 * scale):
+    if not ctx.margin("number:compression-overlap", abs(complex(out.overlap) - ov), 1e-10 * scale):
         ctx.violation("value:compression_:reported-overlap", f"out.overlap={out.overlap} vs dense <psi|target>={ov}")
     if normalize and psi.factor != 1:
         ctx.violation("compression_:factor-normalize", f"normalize=True left factor {psi.factor}")
